@@ -1,21 +1,27 @@
-use crate::common::models::{ConstFn, NewUnchecked, TypeName};
+use crate::common::{
+    gen::strip_trait_bounds_on_generics,
+    models::{ConstFn, NewUnchecked, TypeName},
+};
 use proc_macro2::TokenStream;
 use quote::{quote, ToTokens};
+use syn::Generics;
 
 pub fn gen_new_unchecked(
     type_name: &TypeName,
+    generics: &Generics,
     inner_type: impl ToTokens,
     new_unchecked: NewUnchecked,
     const_fn: ConstFn,
 ) -> TokenStream {
+    let generics_without_bounds = strip_trait_bounds_on_generics(generics);
     match new_unchecked {
         NewUnchecked::Off => quote! {},
         NewUnchecked::On => quote! {
-            impl #type_name {
+            impl #generics #type_name #generics_without_bounds {
                 /// Creates a value of type skipping the sanitization and validation
                 /// rules. Generally, you should avoid using `::new_unchecked()` without a real need.
                 /// Use `::new()` instead when it's possible.
-                pub #const_fn unsafe fn new_unchecked(inner_value: #inner_type) -> #type_name {
+                pub #const_fn unsafe fn new_unchecked(inner_value: #inner_type) -> #type_name #generics_without_bounds {
                     #type_name(inner_value)
                 }
             }
